@@ -37,12 +37,12 @@ import (
 // ---------- cross-package constant folding ----------
 
 type c07pkg struct {
-	dir     string
-	exprs   map[string]ast.Expr     // name -> initialiser
-	fileOf  map[string]*ast.File    // name -> declaring file (for its imports)
-	files   []*ast.File
-	fset    *token.FileSet
-	vars    map[string]ast.Expr     // package-level var initialisers (slices)
+	dir    string
+	exprs  map[string]ast.Expr  // name -> initialiser
+	fileOf map[string]*ast.File // name -> declaring file (for its imports)
+	files  []*ast.File
+	fset   *token.FileSet
+	vars   map[string]ast.Expr // package-level var initialisers (slices)
 }
 
 type c07world struct {
@@ -97,7 +97,7 @@ func (w *c07world) load(dir string) (*c07pkg, error) {
 	return p, nil
 }
 
-func importsOf(f *ast.File) map[string]string {
+func c07ImportsOf(f *ast.File) map[string]string {
 	m := map[string]string{}
 	for _, im := range f.Imports {
 		path, err := strconv.Unquote(im.Path.Value)
@@ -142,7 +142,7 @@ func (w *c07world) eval(p *c07pkg, f *ast.File, e ast.Expr, depth int) (string, 
 		if !ok || f == nil {
 			return "", false
 		}
-		path, ok := importsOf(f)[id.Name]
+		path, ok := c07ImportsOf(f)[id.Name]
 		if !ok {
 			return "", false
 		}
@@ -161,18 +161,18 @@ func (w *c07world) eval(p *c07pkg, f *ast.File, e ast.Expr, depth int) (string, 
 	return "", false
 }
 
-func exprText(e ast.Expr) string {
+func c07ExprText(e ast.Expr) string {
 	switch x := e.(type) {
 	case *ast.Ident:
 		return x.Name
 	case *ast.SelectorExpr:
-		return exprText(x.X) + "." + x.Sel.Name
+		return c07ExprText(x.X) + "." + x.Sel.Name
 	case *ast.BasicLit:
 		return x.Value
 	case *ast.StarExpr:
-		return "*" + exprText(x.X)
+		return "*" + c07ExprText(x.X)
 	case *ast.CallExpr:
-		return exprText(x.Fun) + "(...)"
+		return c07ExprText(x.Fun) + "(...)"
 	}
 	return fmt.Sprintf("<%T>", e)
 }
@@ -210,7 +210,7 @@ func (w *c07world) constsOfFile(dir, file string) ([][2]string, error) {
 	return nil, fmt.Errorf("file %s not found in %s", file, dir)
 }
 
-func findFunc(p *c07pkg, recv, name string) (*ast.FuncDecl, *ast.File) {
+func c07FindFunc(p *c07pkg, recv, name string) (*ast.FuncDecl, *ast.File) {
 	for _, f := range p.files {
 		for _, d := range f.Decls {
 			fd, ok := d.(*ast.FuncDecl)
@@ -243,7 +243,7 @@ func findFunc(p *c07pkg, recv, name string) (*ast.FuncDecl, *ast.File) {
 // deletesOf returns the annotation keys that method `name` of Resource deletes from the map it later
 // stores back with SetAnnotations, when called with the given arguments (only `nil` matters).
 func (w *c07world) deletesOf(resPkg *c07pkg, name string, args []ast.Expr, buildAnn []string) (keys []string, notes []string) {
-	fd, f := findFunc(resPkg, "Resource", name)
+	fd, f := c07FindFunc(resPkg, "Resource", name)
 	if fd == nil || fd.Body == nil {
 		return nil, []string{"method Resource." + name + " not found"}
 	}
@@ -267,14 +267,14 @@ func (w *c07world) deletesOf(resPkg *c07pkg, name string, args []ast.Expr, build
 		switch x := n.(type) {
 		case *ast.AssignStmt:
 			if len(x.Lhs) == 1 && len(x.Rhs) == 1 {
-				if c, ok := x.Rhs[0].(*ast.CallExpr); ok && strings.HasSuffix(exprText(c.Fun), ".GetAnnotations") && len(c.Args) == 0 {
+				if c, ok := x.Rhs[0].(*ast.CallExpr); ok && strings.HasSuffix(c07ExprText(c.Fun), ".GetAnnotations") && len(c.Args) == 0 {
 					if id, ok := x.Lhs[0].(*ast.Ident); ok {
 						mapVar = id.Name
 					}
 				}
 			}
 		case *ast.CallExpr:
-			if strings.HasSuffix(exprText(x.Fun), ".SetAnnotations") && len(x.Args) == 1 {
+			if strings.HasSuffix(c07ExprText(x.Fun), ".SetAnnotations") && len(x.Args) == 1 {
 				if id, ok := x.Args[0].(*ast.Ident); ok && id.Name == mapVar && mapVar != "" {
 					stored = true
 				}
@@ -291,7 +291,7 @@ func (w *c07world) deletesOf(resPkg *c07pkg, name string, args []ast.Expr, build
 			return nil, false
 		}
 		c, ok := es.X.(*ast.CallExpr)
-		if !ok || exprText(c.Fun) != "delete" || len(c.Args) != 2 {
+		if !ok || c07ExprText(c.Fun) != "delete" || len(c.Args) != 2 {
 			return nil, false
 		}
 		if id, ok := c.Args[0].(*ast.Ident); !ok || id.Name != mapVar {
@@ -302,7 +302,7 @@ func (w *c07world) deletesOf(resPkg *c07pkg, name string, args []ast.Expr, build
 	containsDelete := func(n ast.Node) bool {
 		found := false
 		ast.Inspect(n, func(m ast.Node) bool {
-			if c, ok := m.(*ast.CallExpr); ok && exprText(c.Fun) == "delete" {
+			if c, ok := m.(*ast.CallExpr); ok && c07ExprText(c.Fun) == "delete" {
 				found = true
 			}
 			return true
@@ -316,7 +316,7 @@ func (w *c07world) deletesOf(resPkg *c07pkg, name string, args []ast.Expr, build
 				if v, ok := w.eval(resPkg, f, k, 0); ok {
 					keys = append(keys, v)
 				} else {
-					notes = append(notes, "Resource."+name+": delete with a non-constant key "+exprText(k))
+					notes = append(notes, "Resource."+name+": delete with a non-constant key "+c07ExprText(k))
 				}
 				continue
 			}
@@ -325,7 +325,7 @@ func (w *c07world) deletesOf(resPkg *c07pkg, name string, args []ast.Expr, build
 				// for _, a := range BuildAnnotations { delete(annotations, a) }
 				if id, ok := x.X.(*ast.Ident); ok && id.Name == "BuildAnnotations" && x.Value != nil && len(x.Body.List) == 1 {
 					if k, ok := isDelete(x.Body.List[0]); ok {
-						if kid, ok := k.(*ast.Ident); ok && kid.Name == exprText(x.Value) {
+						if kid, ok := k.(*ast.Ident); ok && kid.Name == c07ExprText(x.Value) {
 							keys = append(keys, buildAnn...)
 							continue
 						}
@@ -337,7 +337,7 @@ func (w *c07world) deletesOf(resPkg *c07pkg, name string, args []ast.Expr, build
 			case *ast.IfStmt:
 				// if <param> == nil { ... } [else { ... }] with nil passed at the call site
 				if be, ok := x.Cond.(*ast.BinaryExpr); ok && be.Op == token.EQL {
-					if id, ok := be.X.(*ast.Ident); ok && exprText(be.Y) == "nil" && nilParams[id.Name] && x.Init == nil {
+					if id, ok := be.X.(*ast.Ident); ok && c07ExprText(be.Y) == "nil" && nilParams[id.Name] && x.Init == nil {
 						walk(x.Body.List)
 						continue
 					}
@@ -375,7 +375,7 @@ func (w *c07world) stringSliceVar(dir, name string) ([]string, error) {
 	for _, el := range cl.Elts {
 		v, ok := w.eval(p, p.fileOf[name], el, 0)
 		if !ok {
-			return nil, fmt.Errorf("var %s: element %s is not a constant string", name, exprText(el))
+			return nil, fmt.Errorf("var %s: element %s is not a constant string", name, c07ExprText(el))
 		}
 		out = append(out, v)
 	}
@@ -404,8 +404,8 @@ func (w *c07world) skipTable(dir, name string) ([][3]string, error) {
 		var g, v, k string
 		for _, fe := range fs.Elts {
 			kv, ok := fe.(*ast.KeyValueExpr)
-			if !ok || exprText(kv.Key) != "Gvk" {
-				return nil, fmt.Errorf("%s: a skip entry has a field other than Gvk (%s)", name, exprText(fe))
+			if !ok || c07ExprText(kv.Key) != "Gvk" {
+				return nil, fmt.Errorf("%s: a skip entry has a field other than Gvk (%s)", name, c07ExprText(fe))
 			}
 			gl, ok := kv.Value.(*ast.CompositeLit)
 			if !ok {
@@ -420,7 +420,7 @@ func (w *c07world) skipTable(dir, name string) ([][3]string, error) {
 				if !ok {
 					return nil, fmt.Errorf("%s: non-constant Gvk field", name)
 				}
-				switch exprText(gkv.Key) {
+				switch c07ExprText(gkv.Key) {
 				case "Group":
 					g = s
 				case "Version":
@@ -428,7 +428,7 @@ func (w *c07world) skipTable(dir, name string) ([][3]string, error) {
 				case "Kind":
 					k = s
 				default:
-					return nil, fmt.Errorf("%s: unknown Gvk field %s", name, exprText(gkv.Key))
+					return nil, fmt.Errorf("%s: unknown Gvk field %s", name, c07ExprText(gkv.Key))
 				}
 			}
 		}
@@ -439,22 +439,22 @@ func (w *c07world) skipTable(dir, name string) ([][3]string, error) {
 
 // ---------- scan for annotation-like strings ----------
 
-var annLikeRe = regexp.MustCompile(`^([a-z0-9-]+\.)*config\.(kubernetes|k8s)\.io/[A-Za-z0-9._-]+$`)
+var c07AnnLikeRe = regexp.MustCompile(`^([a-z0-9-]+\.)*config\.(kubernetes|k8s)\.io/[A-Za-z0-9._-]+$`)
 
-type annLike struct{ file, name, value string }
+type c07AnnLike struct{ file, name, value string }
 
-func (w *c07world) scanAnnotationLike() ([]annLike, error) {
-	var out []annLike
+func (w *c07world) scanAnnotationLike() ([]c07AnnLike, error) {
+	var out []c07AnnLike
 	seen := map[string]bool{}
 	add := func(file, name, value string) {
-		if !annLikeRe.MatchString(value) {
+		if !c07AnnLikeRe.MatchString(value) {
 			return
 		}
 		rel, _ := filepath.Rel(w.repo, file)
 		k := rel + "\x00" + name + "\x00" + value
 		if !seen[k] {
 			seen[k] = true
-			out = append(out, annLike{rel, name, value})
+			out = append(out, c07AnnLike{rel, name, value})
 		}
 	}
 	for _, root := range []string{"api", "kyaml"} {
@@ -541,18 +541,18 @@ func (w *c07world) scanAnnotationLike() ([]annLike, error) {
 
 // ---------- krusty.Run strip calls ----------
 
-type stripCall struct {
+type c07StripCall struct {
 	method string
 	guard  string // Coq term of type strip_guard
 }
 
-func (w *c07world) runStrips() ([]stripCall, error) {
+func (w *c07world) runStrips() ([]c07StripCall, error) {
 	dir := filepath.Join(w.repo, "api/krusty")
 	p, err := w.load(dir)
 	if err != nil {
 		return nil, err
 	}
-	fd, f := findFunc(p, "Kustomizer", "Run")
+	fd, f := c07FindFunc(p, "Kustomizer", "Run")
 	if fd == nil {
 		return nil, fmt.Errorf("Kustomizer.Run not found")
 	}
@@ -567,7 +567,7 @@ func (w *c07world) runStrips() ([]stripCall, error) {
 		}
 		return "", false
 	}
-	var out []stripCall
+	var out []c07StripCall
 	// the name of the variable holding the result map: whatever Run returns at the end
 	var visit func(stmts []ast.Stmt, guard string)
 	callsIn := func(n ast.Node) []string {
@@ -591,7 +591,7 @@ func (w *c07world) runStrips() ([]stripCall, error) {
 					// `if err != nil {return}` and the like; also an Init that strips
 					if x.Init != nil {
 						for _, m := range callsIn(x.Init) {
-							out = append(out, stripCall{m, guard})
+							out = append(out, c07StripCall{m, guard})
 						}
 					}
 					continue
@@ -599,8 +599,8 @@ func (w *c07world) runStrips() ([]stripCall, error) {
 				g := "GUnknown"
 				// if !utils.StringSliceContains(kt.Kustomization().BuildMetadata, types.X) { ... }
 				if ue, ok := x.Cond.(*ast.UnaryExpr); ok && ue.Op == token.NOT && x.Init == nil && x.Else == nil && guard == "GAlways" {
-					if c, ok := ue.X.(*ast.CallExpr); ok && strings.HasSuffix(exprText(c.Fun), "StringSliceContains") && len(c.Args) == 2 &&
-						strings.HasSuffix(exprText(c.Args[0]), ".BuildMetadata") {
+					if c, ok := ue.X.(*ast.CallExpr); ok && strings.HasSuffix(c07ExprText(c.Fun), "StringSliceContains") && len(c.Args) == 2 &&
+						strings.HasSuffix(c07ExprText(c.Args[0]), ".BuildMetadata") {
 						if v, ok := w.eval(p, f, c.Args[1], 0); ok {
 							g = "(GUnlessRequested " + coqStr(v) + ")"
 						}
@@ -609,7 +609,7 @@ func (w *c07world) runStrips() ([]stripCall, error) {
 				visit(x.Body.List, g)
 				if x.Else != nil {
 					for _, m := range callsIn(x.Else) {
-						out = append(out, stripCall{m, "GUnknown"})
+						out = append(out, c07StripCall{m, "GUnknown"})
 					}
 				}
 			case *ast.BlockStmt:
@@ -622,11 +622,11 @@ func (w *c07world) runStrips() ([]stripCall, error) {
 				switch s.(type) {
 				case *ast.ExprStmt, *ast.AssignStmt:
 					for _, m := range ms {
-						out = append(out, stripCall{m, guard})
+						out = append(out, c07StripCall{m, guard})
 					}
 				default:
 					for _, m := range ms {
-						out = append(out, stripCall{m, "GUnknown"})
+						out = append(out, c07StripCall{m, "GUnknown"})
 					}
 				}
 			}
@@ -646,7 +646,7 @@ func (w *c07world) stripMethodKeys(method string, buildAnn []string) ([]string, 
 	if err != nil {
 		return nil, []string{err.Error()}
 	}
-	fd, _ := findFunc(rm, "resWrangler", method)
+	fd, _ := c07FindFunc(rm, "resWrangler", method)
 	if fd == nil || fd.Body == nil {
 		return nil, []string{"resWrangler." + method + " not found"}
 	}
@@ -658,17 +658,17 @@ func (w *c07world) stripMethodKeys(method string, buildAnn []string) ([]string, 
 		if !ok {
 			continue
 		}
-		if exprText(rg.X) != exprText(fd.Recv.List[0].Names[0])+".rList" || rg.Value == nil {
+		if c07ExprText(rg.X) != c07ExprText(fd.Recv.List[0].Names[0])+".rList" || rg.Value == nil {
 			continue
 		}
-		rv := exprText(rg.Value)
+		rv := c07ExprText(rg.Value)
 		ast.Inspect(rg.Body, func(n ast.Node) bool {
 			c, ok := n.(*ast.CallExpr)
 			if !ok {
 				return true
 			}
 			se, ok := c.Fun.(*ast.SelectorExpr)
-			if !ok || exprText(se.X) != rv {
+			if !ok || c07ExprText(se.X) != rv {
 				return true
 			}
 			okShape = true
@@ -684,8 +684,8 @@ func (w *c07world) stripMethodKeys(method string, buildAnn []string) ([]string, 
 	return keys, notes
 }
 
-// callNames lists the names of all calls in a function body in source order (method or function name only).
-func callNames(fd *ast.FuncDecl) []string {
+// c07CallNames lists the names of all calls in a function body in source order (method or function name only).
+func c07CallNames(fd *ast.FuncDecl) []string {
 	var out []string
 	if fd == nil || fd.Body == nil {
 		return out
@@ -708,7 +708,7 @@ func callNames(fd *ast.FuncDecl) []string {
 
 // ---------- printing ----------
 
-func coqStrList(l []string) string {
+func c07CoqStrList(l []string) string {
 	parts := make([]string, len(l))
 	for i, s := range l {
 		parts[i] = coqStr(s)
@@ -776,7 +776,7 @@ func init() {
 			if i == len(bcl.Elts)-1 {
 				sep = ""
 			}
-			fmt.Fprintf(&b, "  (%s, %s)%s\n", coqStr(exprText(el)), coqStr(v), sep)
+			fmt.Fprintf(&b, "  (%s, %s)%s\n", coqStr(c07ExprText(el)), coqStr(v), sep)
 		}
 		b.WriteString("].\n\n")
 
@@ -813,11 +813,11 @@ func init() {
 			if i == len(methods)-1 {
 				sep = ""
 			}
-			fmt.Fprintf(&b, "  (%s, %s)%s\n", coqStr(m), coqStrList(keys), sep)
+			fmt.Fprintf(&b, "  (%s, %s)%s\n", coqStr(m), c07CoqStrList(keys), sep)
 		}
 		b.WriteString("].\n")
 		b.WriteString("(* delete sites the translator could not classify (not counted above) *)\n")
-		fmt.Fprintf(&b, "Definition gen_strip_unclassified : list string := %s.\n\n", coqStrList(allNotes))
+		fmt.Fprintf(&b, "Definition gen_strip_unclassified : list string := %s.\n\n", c07CoqStrList(allNotes))
 
 		// scan
 		al, err := w.scanAnnotationLike()
@@ -855,32 +855,32 @@ func init() {
 			if err != nil {
 				return "", err
 			}
-			fmt.Fprintf(&b, "(* api/internal/builtins/SortOrderTransformer.go: %s *)\nDefinition %s : list string := %s.\n\n", t.v, t.coq, coqStrList(l))
+			fmt.Fprintf(&b, "(* api/internal/builtins/SortOrderTransformer.go: %s *)\nDefinition %s : list string := %s.\n\n", t.v, t.coq, c07CoqStrList(l))
 		}
 		// order of the build tail
 		kp, err := w.load(filepath.Join(repo, "api/krusty"))
 		if err != nil {
 			return "", err
 		}
-		runFd, _ := findFunc(kp, "Kustomizer", "Run")
+		runFd, _ := c07FindFunc(kp, "Kustomizer", "Run")
 		tp, err := w.load(filepath.Join(repo, "api/internal/target"))
 		if err != nil {
 			return "", err
 		}
-		mkFd, _ := findFunc(tp, "KustTarget", "makeCustomizedResMap")
-		ilFd, _ := findFunc(tp, "KustTarget", "IgnoreLocal")
+		mkFd, _ := c07FindFunc(tp, "KustTarget", "makeCustomizedResMap")
+		ilFd, _ := c07FindFunc(tp, "KustTarget", "IgnoreLocal")
 		if runFd == nil || mkFd == nil || ilFd == nil {
 			return "", fmt.Errorf("Kustomizer.Run / KustTarget.makeCustomizedResMap / KustTarget.IgnoreLocal not found")
 		}
 		fmt.Fprintf(&b, "(* calls, in source order, of Kustomizer.Run, KustTarget.makeCustomizedResMap and KustTarget.IgnoreLocal *)\n")
-		fmt.Fprintf(&b, "Definition gen_run_calls : list string := %s.\n", coqStrList(callNames(runFd)))
-		fmt.Fprintf(&b, "Definition gen_make_customized_calls : list string := %s.\n", coqStrList(callNames(mkFd)))
-		fmt.Fprintf(&b, "Definition gen_ignore_local_calls : list string := %s.\n\n", coqStrList(callNames(ilFd)))
+		fmt.Fprintf(&b, "Definition gen_run_calls : list string := %s.\n", c07CoqStrList(c07CallNames(runFd)))
+		fmt.Fprintf(&b, "Definition gen_make_customized_calls : list string := %s.\n", c07CoqStrList(c07CallNames(mkFd)))
+		fmt.Fprintf(&b, "Definition gen_ignore_local_calls : list string := %s.\n\n", c07CoqStrList(c07CallNames(ilFd)))
 		bm, err := w.stringSliceVar(filepath.Join(repo, "api/types"), "BuildMetadataOptions")
 		if err != nil {
 			return "", err
 		}
-		fmt.Fprintf(&b, "(* api/types/kustomization.go: BuildMetadataOptions *)\nDefinition gen_buildmeta_options : list string := %s.\n", coqStrList(bm))
+		fmt.Fprintf(&b, "(* api/types/kustomization.go: BuildMetadataOptions *)\nDefinition gen_buildmeta_options : list string := %s.\n", c07CoqStrList(bm))
 		return b.String(), nil
 	})
 }
